@@ -180,3 +180,12 @@ Definition clears_panel (fw fh madctl : Z) (p : panel) (ws : list Z) (ev : list 
   forallb (fun c => match mem k (fst c) (snd c) with Some w => zlist_eqb w ws | None => false end) (cells_of p)
   && forallb (wr_in_panel p) (writes k)
   && match k_flags k with [] => true | _ => false end.
+
+(* the L1 view of a pin-level run: every log decoded; results and reported state kept *)
+Definition decode_pout2 (pc : pcase) (m : model_def) (impl : pout2) : pout :=
+  let '(r0, ops0, ob0, outs) := impl in
+  let logs := (false, ops0) :: map (fun y => (is_err (fst (fst y)), snd (fst y))) outs in
+  match decode_seq pc m (lines0 (bus_width pc)) true logs with
+  | ev0 :: evs => (r0, ev0, ob0, map (fun z => (fst (fst (fst z)), snd z, snd (fst z))) (combine outs evs))
+  | [] => (r0, [], ob0, [])
+  end.
